@@ -3,6 +3,7 @@
 tier=${1:-quick}; seed=${2:-0}; shift 2 || true
 ids="$@"; [ -n "$ids" ] || ids=$(seq -f "C%02g" 1 40)
 cd "$(dirname "$0")/.."
+echo "abtem from: $(/venv/bin/python -c 'import abtem,os;print(os.path.dirname(abtem.__file__))' 2>/dev/null | tail -1)  (PYTHONPATH=${PYTHONPATH:-})"
 for i in $ids; do
   s=$(date +%s)
   out=$(VERIF_SEED=$seed ./check $i --tier $tier 2>&1); rc=$?
